@@ -274,6 +274,8 @@ func icBody(cfg *icCfg) (*icRun, func()) {
 			for i, sh := range r.h.s.shards {
 				if !used[i] {
 					sh.mu.rw.Quiet = true
+				} else if cfg.Loading {
+					sh.group.callPool.Sched = true // a record put back may be reused by the next leader at once
 				}
 			}
 		})
